@@ -1605,6 +1605,7 @@ def _generate_structure_definition(type_ir, ir, config: Config):
     forwarded_parameters = []
     parameter_initializers = []
     parameter_copy_initializers = []
+    parameter_copy_assignments = []
     units = {1: "Bits", 8: "Bytes"}[type_ir.addressable_unit]
 
     for subtype in type_ir.subtype:
@@ -1632,6 +1633,9 @@ def _generate_structure_definition(type_ir, ir, config: Config):
         parameter_copy_initializers.append(
             ", {0}_(emboss_reserved_local_other.{0}_)".format(parameter_name)
         )
+        parameter_copy_assignments.append(
+            "{0}_ = emboss_reserved_local_other.{0}_;".format(parameter_name)
+        )
 
         field_method_declarations.append(
             code_template.format_template(
@@ -1655,6 +1659,9 @@ def _generate_structure_definition(type_ir, ir, config: Config):
         flag_name = "parameters_initialized_"
         parameter_copy_initializers.append(
             ", {0}(emboss_reserved_local_other.{0})".format(flag_name)
+        )
+        parameter_copy_assignments.append(
+            "{0} = emboss_reserved_local_other.{0};".format(flag_name)
         )
         parameters_initialized_flag = "bool {} = false;".format(flag_name)
         initialize_parameters_initialized_true = ", {}(true)".format(flag_name)
@@ -1759,6 +1766,7 @@ def _generate_structure_definition(type_ir, ir, config: Config):
         forwarded_parameters="".join(forwarded_parameters),
         parameter_initializers="\n".join(parameter_initializers),
         parameter_copy_initializers="\n".join(parameter_copy_initializers),
+        parameter_copy_assignments="\n".join(parameter_copy_assignments),
         parameters_initialized_flag=parameters_initialized_flag,
         initialize_parameters_initialized_true=(initialize_parameters_initialized_true),
         units=units,
